@@ -58,6 +58,18 @@ pub fn dead_code_elimination(function: &il::Function) -> Result<il::Function, Er
                         function,
                         il::RefFunctionLocation::Instruction(block, instruction),
                     );
+                    // The definitions this instruction can observe are the
+                    // ones which reach it, i.e. which leave its predecessors.
+                    // The reaching definitions of the instruction itself have
+                    // already lost every definition of a scalar the
+                    // instruction (an intrinsic) writes.
+                    for predecessor in rpl.backward()? {
+                        if let Some(reaching) = rd.get(&predecessor.into()) {
+                            reaching.locations().iter().for_each(|location| {
+                                live.insert(location.function_location().clone());
+                            });
+                        }
+                    }
                     if let Some(reaching) = rd.get(&rpl.into()) {
                         reaching.locations().iter().for_each(|location| {
                             live.insert(location.function_location().clone());
